@@ -83,6 +83,12 @@ def env_after_stmt(b, st, env, oc=None):
     d = None
     if rv['k'] == 'use' and rv['op']['k'] == 'const' and 'int' in rv['op'] and b.lty(dst).get('k') == 'bool':
         val = ('c', bool(rv['op']['int']))
+    elif rv['k'] == 'use' and rv['op']['k'] == 'const' and b.lty(dst).get('adt') in b.f.adts and isinstance(rv['op'].get('s'), str):
+        # a fieldless variant of a crate-local enum written as a constant
+        names = [v_['n'] for v_ in b.f.adts[b.lty(dst)['adt']]['variants']]
+        vn = rv['op']['s'].split('::')[-1]
+        if vn in names and len(names) > 1:
+            val = ('v', vn, names.index(vn), None)
     elif rv['k'] == 'agg' and rv.get('ak') == 'adt' and 'variant' in rv:
         payload = None
         if len(rv['ops']) == 1 and rv['ops'][0]['k'] == 'const' and 'int' in rv['ops'][0] and rv['ops'][0].get('s') in ('true', 'false'):
